@@ -96,6 +96,12 @@ func zooGo(e *E, variant int) interface{} {
 			return float32(e.I) / 4
 		case "float64":
 			return float64(e.I) / 4
+		case "tiny64":
+			return float64(e.I) * 1e-12
+		case "tiny32":
+			return float32(e.I) * 1e-30
+		case "denorm":
+			return float64(e.I) * 5e-324
 		case "named":
 			return zNamedInt(e.I)
 		}
